@@ -733,7 +733,16 @@ def e2e_wrapper_prog(seed, i):
     woo.lifetimes = ["a"]
     outb = spec.Struct("OutB", [("b", ("obox", "Hub", False))])
     outb.out, outb.kind = True, "outstruct"
-    items += [en, we, wwe, wo, woo, outb]
+    # wrappers of wrappers among *out*-structs (a separate arm of the type definition in the JS generator)
+    outp = spec.Struct("OutP", [("raw", ("prim", rng.choice(["i16", "i8", "u16", "bool"])))])
+    outpp = spec.Struct("OutPP", [("reading", ("struct", "OutP"))])
+    outbb = spec.Struct("OutBB", [("inner", ("struct", "OutB"))])
+    oute = spec.Struct("OutE", [("inner", ("struct", "We"))])
+    for o_ in (outp, outpp, outbb, oute):
+        o_.out, o_.kind = True, "outstruct"
+    items += [en, we, wwe, wo, woo, outb, outp, outpp, outbb, oute]
+    for o_ in (outp, outpp, outbb, oute):
+        op.methods.append(spec.Method("r_" + o_.name.lower(), ("ref", None), [("n", ("prim", "u8"))], ("struct", o_.name)))
     for nm, t in (("we", ("struct", "We")), ("wwe", ("struct", "Wwe"))):
         op.methods.append(spec.Method("r_" + nm, ("ref", None), [("n", ("prim", "u8"))], t))
         op.methods.append(spec.Method("t_" + nm, ("ref", None), [("v", t), ("k", ("prim", "u16"))], ("prim", "u8")))
